@@ -435,6 +435,8 @@ def _date_cat(y, m, d, raw):
         c = 'month_overflow'
     else:
         c = 'valid'
+    if raw and isinstance(raw[0], float):
+        return 'float_year'            # one root cause whatever the month and day are
     if any(isinstance(x, float) for x in raw):
         c += '.float'
     return c
@@ -491,7 +493,7 @@ def _shift_case(ev, name, spec, k):
     elif isinstance(k, float):
         c += '.float'
     if is_dateobj(spec):
-        c += '.date_object'
+        c = 'date_object'              # one root cause whatever the offset is
     return (f'C15.{name}.{c}', abs(k) + abs(t[0] - 2024) / 100.0,
             f'{name.upper()}({mkv(spec)!r},{k!r}) -> {got!r}, expected {fmt(exp)}')
 
@@ -526,7 +528,7 @@ def case_datedif(ev, s_spec, e_spec, unit, in_cell=False):
     if unit != 'D' and ref_months_clamped(s, e) != ref_months(s, e):
         c += '.short_month_end'
     if is_dateobj(s_spec) or is_dateobj(e_spec):
-        c += '.date_object'
+        c = 'date_object'
     return (f'C15.datedif.{c}', ordinal(*e) - ordinal(*s) + abs(s[0] - 2024) / 100.0,
             f'DATEDIF({fmt(s)},{fmt(e)},{unit!r}{" via cell" if in_cell else ""}) -> {got!r}, expected {exp}')
 
@@ -553,8 +555,10 @@ def _nwd_features(s_spec, e_spec, hol):
         f.add('blank')
     if any(has_tod(x) for x in [s_spec, e_spec] + hs):
         f.add('time_of_day')
-    if any(is_dateobj(x) for x in [s_spec, e_spec] + hs):
-        f.add('date_object')
+    if is_dateobj(s_spec) or is_dateobj(e_spec):
+        f.add('date_object_end')
+    if any(is_dateobj(x) for x in hs):
+        f.add('date_object_holiday')
     if len(hol) > 1000:
         f.add('long_list')
     return f
@@ -864,6 +868,8 @@ def _lit(v):
         return 'DATE(%d,%d,%d)' % v
     if isinstance(v, str):
         return '"%s"' % v
+    if isinstance(v, float) and v == int(v):
+        return '%d/2' % (2 * int(v))       # a division: the generated code computes a double
     return repr(v)
 
 
@@ -892,6 +898,8 @@ def literal_cases(tier, rng):
                 cs.append(('date', (y, m, d)))
                 if (m + d) % 5 == 0:
                     cs.append(('ymd_of_date', (y, m, d)))
+                if (m + d) % 7 == 0:      # integer-valued results of a division as year / month / day
+                    cs += [('date', (float(y), m, d)), ('date', (y, float(m), d)), ('date', (y, m, float(d)))]
     starts = [(2023, 12, 31), (2024, 1, 29), (2024, 1, 30), (2024, 1, 31), (2024, 2, 29), (2023, 3, 31), (1999, 12, 31),
               (2100, 1, 31), (2051, 8, 31), (1900, 1, 31)]
     ks = [-60, -37, -25, -13, -12, -11, -2, -1, 0, 1, 2, 11, 12, 13, 14, 25, 37, 60, 1.5, -1.5, -0.9]
@@ -1391,12 +1399,6 @@ def run(tier='quick', seed=0):
 
 
 # ====================================================================================== replay
-def _tuplify(x):
-    if isinstance(x, list):
-        return [_tuplify(i) for i in x]
-    return x
-
-
 def replay(payload):
     if not payload:
         return {'fails': False, 'text': 'nothing to replay'}
